@@ -34,7 +34,7 @@ def get_max_line_length(baseline_list):
     return np.abs(x1s - x0s).max()
 
 
-def assign_lines_to_regions(baseline_list, heights_list, textline_list, regions):
+def assign_lines_to_regions(baseline_list, heights_list, textline_list, regions, line_id_suffix=''):
     min_line = np.zeros([len(textline_list), 2], dtype=np.float32)
     max_line = np.zeros([len(textline_list), 2], dtype=np.float32)
     for textline, min_, max_ in zip(baseline_list, min_line, max_line):
@@ -65,7 +65,7 @@ def assign_lines_to_regions(baseline_list, heights_list, textline_list, regions)
             baseline, textline, region.polygon)
         if baseline_intersection is not None and textline_intersection is not None:
             new_textline = TextLine(
-                id='{}-l{:03d}'.format(region.id, line_id+1),
+                id='{}-l{:03d}{}'.format(region.id, line_id+1, line_id_suffix),
                 baseline=baseline_intersection,
                 polygon=textline_intersection,
                 heights=heights
